@@ -141,7 +141,7 @@ CHECKS = {
        "holds initially (sweep over the regenerated tables) and is kept by a JoinAccept CFList, NewChannelReq and DlChannelReq; under it a data uplink goes out on a defined channel, enabled in the mask "
        "left in force, in band, at the configured region-defined data rate, a join request on a default join frequency; fixed plans: a mask-driven data uplink uses an enabled channel of the uplink map "
        "whose kind (125/500 kHz) matches the bandwidth of the data rate; the join data rates of the regenerated table have the bandwidth of their channel kind; after the fall-back a usable channel "
-       "always exists and the fall-back changes nothing when one existed; the search ends at the first draw that hits a usable channel (progress); conducted power <= min(127, the limit handed to "
+       "always exists and the fall-back changes nothing when one existed; every sampling loop (dynamic data and join, fixed 125 / 500 kHz) ends at the first draw that hits what it looks for, and a hitting draw value always exists (progress: C09_dynamic_selection_progress, C09_dynamic_join_progress, C09_fixed_selection_progress, C09_every_enabled_channel_can_be_drawn); conducted power <= min(127, the limit handed to "
        "adjust_power) and <= EIRP - gain. Along whole histories (Proofs/TxHistory.v): C09_every_selection_path_legal -- EVERY path of select_tx_channel (dynamic data / join, fixed plan through the mask, "
        "through the join-channel bookkeeping incl. the join bias, first data channel after a biased join) from every region state with the shape invariant yields a channel of the region (in band / on "
        "the uplink map, index <= 71, bandwidth of the data rate = channel kind) at a region-defined data rate; C09_send_/C09_join_transmission_legal -- what send / join_otaa hand to the radio is such a "
